@@ -50,6 +50,7 @@ import (
 	"io"
 	"iter"
 	"regexp/syntax"
+	"strconv"
 	"strings"
 	"unicode"
 	"unicode/utf8"
@@ -132,7 +133,7 @@ func Compile(pattern string) (*Regex, error) {
 func MustCompile(pattern string) *Regex {
 	re, err := Compile(pattern)
 	if err != nil {
-		panic("regexp: Compile(`" + pattern + "`): " + err.Error())
+		panic("regexp: Compile(" + quote(pattern) + "): " + err.Error())
 	}
 	return re
 }
@@ -162,9 +163,18 @@ func CompilePOSIX(pattern string) (*Regex, error) {
 func MustCompilePOSIX(pattern string) *Regex {
 	re, err := CompilePOSIX(pattern)
 	if err != nil {
-		panic("regexp: CompilePOSIX(`" + pattern + "`): " + err.Error())
+		panic("regexp: CompilePOSIX(" + quote(pattern) + "): " + err.Error())
 	}
 	return re
+}
+
+// quote renders a pattern for the Must* panic messages the way stdlib does:
+// back-quoted when possible, otherwise as an interpreted Go string literal.
+func quote(s string) string {
+	if strconv.CanBackquote(s) {
+		return "`" + s + "`"
+	}
+	return strconv.Quote(s)
 }
 
 // Match reports whether the byte slice b contains any match of the regular
